@@ -1090,6 +1090,19 @@ def g6(e: Engine, rep: Report, rule: str):
                                 isinstance(z.value, ast.Name) and
                                 z.value.id == 'self' and
                                 z.attr not in ('size', 'max_size', 'EOD'))})
+            prm = {a.arg for a in m.node.args.args}
+            uncut = any(isinstance(z, ast.Call) and
+                        isinstance(z.func, ast.Name) and
+                        z.func.id == 'len' and z.args and
+                        isinstance(z.args[0], ast.Name) and
+                        z.args[0].id in prm
+                        for t in tests for z in ast.walk(t))
+            if other and not uncut:
+                rep.unknown(rule, m.qname, 'MessageTooBig raised outside '
+                            'the counting methods', 'the test that guards '
+                            'it reads %s, which this rule does not follow'
+                            % ', '.join(other), loc=m.loc(x))
+                continue
             rep.check(not other, rule, m.qname,
                       'MessageTooBig raised outside the counting methods',
                       'the limit is applied to %s - bytes that have not '
